@@ -149,7 +149,7 @@ Proof.
       exists i, leg. rewrite Fr. split; [reflexivity|discriminate]. }
   match goal with |- context [fold_left F ?l (F ?s ?x)] => change (F s x) with (@Next (Z * Z * Z * Z * list V) (Z * Z * Z) (0, 0, 0, 0, c)) end. destruct (L l 1%nat 0 0 0 0 c (le_n _) (Z.le_refl _)) as [i' [leg' [E _]]]. rewrite E. clear E L Fr F.
   destruct (census (lens l) 0 0 0) as [[[one two] long]|]; [|reflexivity].
-  unfold adjust, lift. cbv beta iota zeta delta [seqo finish].
+  unfold adjust, lift. cbv beta iota zeta delta [seqo finish unloop].
   split_ifs; try reflexivity; try (exfalso; lia).
 Qed.
 
